@@ -142,6 +142,15 @@ def impl(case):
     except Exception as e:  # noqa: BLE001
         return {"compile": ["err", exc_name(e)]}
     out["compile"] = ["ok", Q.canon_ast(Q.dump_query(c))]
+    # other environments compile queries of their own in between (their spellings are theirs alone)
+    for other in (None, {"key": "%%", "self": "@@"}, {"key": "@", "self": "#", "root": "$$", "fctx": "__"}):
+        try:
+            oe = make_env(other)
+            d = {"root": "$", "self": "@", "key": "#", "fctx": "_"}
+            d.update(other or {})
+            oe.compile("%s[?%s == 1 || %s.a == %s.k]" % (d["root"], d["key"], d["self"], d["fctx"]))
+        except Exception:  # noqa: BLE001
+            pass
     try:
         s1 = str(c)
     except Exception as e:  # noqa: BLE001
